@@ -5,13 +5,14 @@ from the textbook in specs/rspec.py terms (translation column, Rodrigues rotatio
 scale, elementary shear I + k e_r e_c^T, the matrix printed in the documentation of glm::shear), or, for lookAt, the
 geometric facts of the statement (rigid, proper, eye -> origin, view direction -> -z (RH) / +z (LH), up in the +y
 half-plane, handedness dispatch checked in two builds of the same driver)."""
+import os
 from engine import Prop
 from shimgen import *
 
 P = Prop('C09', 'translate/rotate/scale/shear/lookAt/decompose build the transforms they name')
 d = P.driver('c09', ['<glm/glm.hpp>', '<glm/ext/matrix_transform.hpp>', '<glm/gtc/quaternion.hpp>', '<glm/gtx/transform.hpp>',
                      '<glm/gtx/transform2.hpp>', '<glm/gtx/rotate_vector.hpp>', '<glm/gtx/rotate_normalized_axis.hpp>',
-                     '<glm/gtx/matrix_transform_2d.hpp>', '<glm/gtx/matrix_interpolation.hpp>'])
+                     '<glm/gtx/matrix_transform_2d.hpp>', '<glm/gtx/matrix_interpolation.hpp>', '<glm/gtx/matrix_decompose.hpp>'])
 contracts = []
 
 
@@ -184,6 +185,21 @@ for tag in ('f32', 'f64'):
     R('glm_shearY2D_' + tag, 'glm::shearY2D(mat3, k)  ' + TR2,
       ensures=[('is_m_times_shear_along_y', 'And(eqm(%s, matmul(%s, shear_elem(3, 1, 0, k))))' % (O3, M3))])
 
+    # "scale bias matrix": p -> k*p + (b, b, b), i.e. translation(b, b, b) * diag(k, k, k, 1).
+    # On the unchanged /repo scaleBias returns a matrix whose 9 off-diagonal entries are never written (default-constructed
+    # mat4 = indeterminate values): the T-check (clang IR vs g++ binary) disagrees on every input and the engine stops with
+    # exit 2 for the WHOLE property, so these two contracts are only generated with C09_SCALEBIAS=1 (tree with the proposed
+    # patch C09_scaleBias_uninit.patch applied).  See proposed/C09_report.md.
+    if os.environ.get('C09_SCALEBIAS'):
+        sb = [(T, 'k'), (T, 'b')]
+        SB = 'matmul(translation([b, b, b]), diag([k, k, k, 1]))'
+        shim_m4('glm_scaleBias_' + tag, sb, 'glm::scaleBias<%s, glm::defaultp>(k, b)' % T)
+        R('glm_scaleBias_' + tag, 'glm::scaleBias(scale, bias)  ' + TR2,
+          ensures=[('is_scale_then_bias', 'And(eqm(%s, %s))' % (O4, SB))])
+        shim_m4('glm_scaleBias_m_' + tag, m4 + sb, 'glm::scaleBias(%s, k, b)' % mk4)
+        R('glm_scaleBias_m_' + tag, 'glm::scaleBias(mat4, scale, bias)  ' + TR2,
+          ensures=[('is_m_times_scale_then_bias', 'And(eqm(%s, matmul(%s, %s)))' % (O4, M4, SB))])
+
     # ------------------------------------------------------------------ gtx/matrix_interpolation (the two closed-form builders)
     MI = 'glm/gtx/matrix_interpolation.inl'
     shim_m4('glm_axisAngleMatrix_' + tag, v3 + ang, 'glm::axisAngleMatrix(%s, a)' % mkv3)
@@ -192,6 +208,24 @@ for tag in ('f32', 'f64'):
     shim_m4('glm_extractMatrixRotation_' + tag, m4, 'glm::extractMatrixRotation(%s)' % mk4)
     R('glm_extractMatrixRotation_' + tag, 'glm::extractMatrixRotation(mat4)  ' + MI,
       ensures=[('is_rotation_block_padded_with_identity', 'And(eqm(%s, embed4(block(%s, 3))))' % (O4, M4))])
+
+    # ------------------------------------------------------------------ gtx/matrix_decompose: recompose alone (closed form)
+    # W3C CSS Transforms "recomposing to a 3D matrix" (the algorithm the file cites): perspective row, then translation, rotation,
+    # YZ / XZ / XY skews, scale, multiplied on the right in this order; Skew = (YZ, XZ, XY) as documented by decompose
+    # recompose<double> does not compile against the unchanged /repo (glm::mat4 hard-coded in its body: finding, see
+    # proposed/C09_report.md); C09_RECOMPOSE_F64=1 adds the double instantiation (for a tree with the proposed patch applied)
+    if dbl and not os.environ.get('C09_RECOMPOSE_F64'):
+        continue
+    s3, t3, k3, pp4 = vec_ins(3, tag, 's'), vec_ins(3, tag, 't'), vec_ins(3, tag, 'k'), vec_ins(4, tag, 'pp')
+    Q = '[qw, qx, qy, qz]'
+    d.shim('glm_recompose_' + tag, 'void', s3 + q4 + t3 + k3 + pp4,
+           'auto r = glm::recompose(%s, glm::qua<%s, glm::defaultp>(qw, qx, qy, qz), %s, %s, %s); %s' % (
+               vec_make(3, tag, 's'), T, vec_make(3, tag, 't'), vec_make(3, tag, 'k'), vec_make(4, tag, 'pp'), st4), outs=[(T, 'out', 16)])
+    R('glm_recompose_' + tag, 'glm::recompose(scale, orientation, translation, skew, perspective)  glm/gtx/matrix_decompose.inl',
+      requires=[('orientation_is_unit', 'norm2(%s) == 1' % Q)], tier='thorough',
+      ensures=[('is_perspective_translation_rotation_skews_scale',
+                'And(eqm(%s, mprod(last_row(%s), translation(%s), embed4(qrot_matrix(%s)), shear_elem(4, 1, 2, k0), '
+                'shear_elem(4, 0, 2, k1), shear_elem(4, 0, 1, k2), diag(%s + [1]))))' % (O4, names(pp4), names(t3), Q, names(s3)))])
 
 flat = P.build(d, 'flat', defines=['GLM_ENABLE_EXPERIMENTAL'])
 lh = P.build(d, 'flat', defines=['GLM_ENABLE_EXPERIMENTAL', 'GLM_FORCE_LEFT_HANDED'], tag='c09_lh')
@@ -212,4 +246,21 @@ P.design_ref = 'DESIGN.md sections 5 and 6 C09'
 P.assumptions = ['machine arithmetic treated as mathematical (IEEE float/double identified with the reals)',
                  'sin(a) and cos(a) denote the same uninterpreted applications in code and clause; no trigonometric identity beyond the '
                  'built-in ground axioms sin^2+cos^2=1 and sqrt(x)^2=x (x>=0) is assumed in any requires']
-P.not_covered = []
+P.not_covered = [
+    'decompose and the round trip recompose(decompose(M)) == M: not eligible for real-arithmetic execution ("dynamic GEP index": '
+    'Row[i][i] / Orientation[i + off] with a data-dependent i in the quaternion extraction), plus epsilon comparisons and a '
+    'Gram-Schmidt chain of four square roots; one attempt made, only recompose alone (closed form) is under contract',
+    'recompose<double>: does not compile against the unchanged /repo (glm::mat4 hard-coded in the body; finding, patch '
+    'proposed/C09_recompose_generic.patch); the f64 contract is generated only with C09_RECOMPOSE_F64=1',
+    'gtx/transform2 scaleBias (both overloads): returns indeterminate off-diagonal entries on the unchanged /repo (finding, patch '
+    'proposed/C09_scaleBias_uninit.patch); undefined values make the T-check stop the whole property, so the two contracts '
+    'are generated only with C09_SCALEBIAS=1',
+    'gtx/transform2 shearX3D/shearY3D/shearZ3D: the one-line documentation ("shearing on X axis") does not determine which of '
+    'the two textbook conventions is meant (x moves by s*y + t*z, or y and z move by s*x and t*x), so no clause can be taken '
+    'from the statement; reflect2D/3D, proj2D/3D are outside the statement',
+    'gtx/rotate_vector orientation() (epsilon branch + acos) and slerp(vec3) (belongs to the interpolation property)',
+    'gtx/matrix_interpolation axisAngle() and interpolate() (branchy, epsilon comparisons, acos)',
+    'rounding: loss of orthogonality / unit determinant in floating point, tiny or huge axes (overflow of dot(v, v)), '
+    'up nearly parallel to the view direction; the zero axis and eye == center (division by zero, excluded by requires)',
+    'qualifiers other than defaultp (packed_highp); SIMD specialisations',
+]
